@@ -464,7 +464,14 @@ def r7(rr, repo):
         st = [e for e in p.events if e.kind == 'store' and e.term == 'self.send_state' and p.events.index(e) > p.events.index(sent[0])]
         rr.ob('after a send the id handed over by recv() is used up (self.send_state = None)', bool(st) and st[-1].args[0] == 'None', mqm, sent[0].node, witness=p.pc_text()[-200:], key='send-state-cleared')
         rs = [e for e in p.events if e.kind == 'store' and e.term == 'self.recv_state']
-        rr.ob('after a send the state returned by the sender becomes the next expected id of recv()', bool(rs) and 'self.sender.send(' in rs[-1].args[0], mqm, sent[0].node, witness=rs[-1].args[0][:120] if rs else '', key='recv-state-set')
+        def takes_state(e):
+            v = e.value
+            if isinstance(v, ast.IfExp):      # `state if frames is not None else None`: the state is taken exactly when there were frames (on this path there were: the None case returned earlier)
+                t = v.test
+                pos = isinstance(t, ast.Compare) and len(t.ops) == 1 and isinstance(t.ops[0], ast.IsNot) and U(t.comparators[0]) == 'None' and 'frames' in U(t.left)
+                return pos and 'self.sender.send(' in U(v.body) and U(v.orelse) == 'None'
+            return 'self.sender.send(' in e.args[0]
+        rr.ob('after a send the state returned by the sender becomes the next expected id of recv()', bool(rs) and takes_state(rs[-1]), mqm, sent[0].node, witness=rs[-1].args[0][:120] if rs else '', key='recv-state-set')
         # callers retry on False (Filter.loop_once: `while not self.mq.send(...)`): once the sender answered - published, or dropped the frame because
         # its id was overtaken - the id is used up, so False here re-publishes the same frame under a NEW id (out of order, and the real owner of that id is discarded later)
         isret, isconst, val = ret_const(p)
